@@ -4,6 +4,7 @@ import re
 from vf import tlc
 
 CAP = 2 ** 30
+CHUNK = 120000
 
 
 class LawLog:
@@ -36,21 +37,44 @@ class LawLog:
                 blocks.append({"law": law, "region": region, "lo": pos, "hi": pos})
         req = [{"law": l, "region": r, "min": m} for (l, r), m in sorted(self.required.items())]
         active = [t for t in known_tags if t in ctx.known]
-        path = tlc.write_json({"events": out, "blocks": blocks, "required": req, "known": active}, "law-" + tag)
-        cfg = "SPECIFICATION Spec\nINVARIANT WellFormed\nINVARIANT Homogeneous\nINVARIANT Coverage\nINVARIANT Report\n"
-        r = tlc.run("LawTrace", cfg_text=cfg, env={"LAW_FILE": path}, timeout=3000, heap="8g")
-        ctx.add_tlc("lawtrace-" + tag, r)
+        # TLC reads the trace in chunks of at most CHUNK events (a block that straddles a chunk border is handed over as
+        # two blocks of the same law and region); the coverage obligations are decided on the block table of the
+        # whole trace in a run of their own
+        jsons = []
+        nblocks = 0
+        for lo in range(0, max(1, len(out)), CHUNK):
+            part = out[lo:lo + CHUNK]
+            pblocks = []
+            for pos, e in enumerate(part, start=1):
+                if pblocks and pblocks[-1]["law"] == e["law"] and pblocks[-1]["region"] == e["region"]:
+                    pblocks[-1]["hi"] = pos
+                else:
+                    pblocks.append({"law": e["law"], "region": e["region"], "lo": pos, "hi": pos})
+            nblocks += len(pblocks)
+            path = tlc.write_json({"events": part, "blocks": pblocks, "required": [], "known": active}, "law-%s-%d" % (tag, lo // CHUNK))
+            cfg = "SPECIFICATION Spec\nINVARIANT WellFormed\nINVARIANT Homogeneous\nINVARIANT Report\n"
+            r = tlc.run("LawTrace", cfg_text=cfg, env={"LAW_FILE": path}, timeout=3000, heap="8g")
+            ctx.add_tlc("lawtrace-%s-%d" % (tag, lo // CHUNK), r)
+            if r.violated or r.errors:
+                ctx.machinery("LawTrace failed:\n" + r.counterexample())
+            for j in r.json:
+                if j.get("k") in ("BAD", "KNOWN"):
+                    j = dict(j, s=[i + lo for i in j["s"]])
+                jsons.append(j)
+        path = tlc.write_json({"events": [], "blocks": blocks, "required": req, "known": active}, "law-%s-cov" % tag)
+        r = tlc.run("LawTrace", cfg_text="SPECIFICATION Spec\nINVARIANT Coverage\n", env={"LAW_FILE": path}, timeout=3000, heap="8g")
+        ctx.add_tlc("lawtrace-%s-coverage" % tag, r)
         if "Coverage" in r.violated:
             have = {(b["law"], b["region"]): b["hi"] - b["lo"] + 1 for b in blocks}
             miss = [(k, m, have.get(k, 0)) for k, m in self.required.items() if have.get(k, 0) < m]
             ctx.machinery("law/region obligations not exercised (law, region), min, seen: %s" % miss[:10])
         if r.violated or r.errors:
-            ctx.machinery("LawTrace failed:\n" + r.counterexample())
-        bad = set(i for j in r.json if j.get("k") == "BAD" for i in j["s"])
-        known = set(i for j in r.json if j.get("k") == "KNOWN" for i in j["s"])
-        blocks_seen = sum(1 for j in r.json if j.get("k") == "BLOCK")
-        if blocks_seen != len(blocks):
-            ctx.machinery("LawTrace reported %d of %d blocks" % (blocks_seen, len(blocks)))
+            ctx.machinery("LawTrace (coverage) failed:\n" + r.counterexample())
+        bad = set(i for j in jsons if j.get("k") == "BAD" for i in j["s"])
+        known = set(i for j in jsons if j.get("k") == "KNOWN" for i in j["s"])
+        blocks_seen = sum(1 for j in jsons if j.get("k") == "BLOCK")
+        if blocks_seen != nblocks:
+            ctx.machinery("LawTrace reported %d of %d blocks" % (blocks_seen, nblocks))
         for pos in known:
             law, region, units, k, case = self.events[evs[pos - 1]]
             ctx.violation(law, {"law": law, "region": region, "case": case}, tags=[k])
@@ -69,7 +93,7 @@ class LawLog:
             else:
                 ctx.violations += 1
         counts = {}
-        for j in r.json:
+        for j in jsons:
             if j.get("k") == "BLOCK":
-                counts[(j["law"], j["region"])] = int(j["n"])
+                counts[(j["law"], j["region"])] = counts.get((j["law"], j["region"]), 0) + int(j["n"])
         return counts
